@@ -14,33 +14,76 @@ contract(
                  "well (checked by the bounded harness with NaN/inf controllers)"],
 )
 
+# ---- the documented summands (value clause of C10)
+# step r = 1..rows-1 contributes, for every control column c, (ode[r-1, c])^2 * gamma * (t_r - t_{r-1}) and, from the
+# second step on, for every used state column q, (ode[r-1, q])^2 * (t_r - t_{r-1}); absurd values are clipped to 1e100.
+# Ghost maps record where each summand is stored: gi[k], gc[k] = (step, column) held by cell k; wh[r, c] = the cell of
+# (r, c).  gi/gc/wh being mutually inverse makes the correspondence cells <-> documented summands a bijection, so
+# fsum(dest) is exactly the documented sum; no arithmetic on positions is needed for that.
+spec("jterm(v, w)", "(v * v) * w if (-1e100 < v and v < 1e100) else 1e100", ret="real")
+spec("dt(ode, r, cols)", "ode[r, cols - 1] - ode[r - 1, cols - 1]", ret="real")
+spec("jsummand(ode, r, c, state_dim, cols, gamma)",
+     "jterm(ode[r - 1, c], dt(ode, r, cols) * gamma) if c >= state_dim else jterm(ode[r - 1, c], dt(ode, r, cols))", ret="real")
+spec("documented(r, c, rows, state_dim, usd, cols)",
+     "1 <= r and r < rows and ((state_dim <= c and c < cols - 1) or (r >= 2 and 0 <= c and c < usd))", ret="bool")
+# cells 0..index-1 hold documented summands of steps <= top and know their place
+spec("cells_ok(dest, ode, gi, gc, wh, index, top, rows, state_dim, usd, cols, gamma)",
+     "forall(k, 0, index, documented(gi[k], gc[k], rows, state_dim, usd, cols) and gi[k] <= top and wh[gi[k], gc[k]] == k"
+     " and dest[k] == jsummand(ode, gi[k], gc[k], state_dim, cols, gamma))", ret="bool")
+# every documented summand of the steps 1..i-1 has its cell
+spec("steps_ok(gi, gc, wh, index, i, state_dim, usd, cols)",
+     "forall(r, 1, i, forall(c, 0, cols - 1, implies((state_dim <= c) or (r >= 2 and c < usd),"
+     " 0 <= wh[r, c] and wh[r, c] < index and gi[wh[r, c]] == r and gc[wh[r, c]] == c)))", ret="bool")
+spec("row_ok(gi, gc, wh, index, i, lo, hi)",
+     "forall(c, lo, hi, 0 <= wh[i, c] and wh[i, c] < index and gi[wh[i, c]] == i and gc[wh[i, c]] == c)", ret="bool")
+
 # number of dest cells written after processing rows 1..i-1 (i = loop counter): (i-1)*cd + max(0, i-2)*usd
 contract(
     OD + ":__j_from_ode_compute",
     props="C10",
     params={"ode": A2(elem="real"), "state_dim": INT, "use_state_dims": INT, "gamma": REAL, "dest": A1(elem="real", uninit=True)},
-    ghosts={"rows": INT, "cols": INT, "cd": INT},
+    ghosts={"rows": INT, "cols": INT, "cd": INT, "gi": A1(), "gc": A1(), "wh": A2()},
     i64=False,
+    ghost_code={"after assign dest[index] #0": ["gi[index] = i", "gc[index] = inner + 1", "wh[i, inner + 1] = index"],
+                "after assign dest[index] #1": ["gi[index] = i", "gc[index] = inner", "wh[i, inner] = index"]},
     requires=[
         "rows >= 2 and shape(ode, 0) == rows and shape(ode, 1) == cols",
+        "len(gi) == len(dest) and len(gc) == len(dest) and shape(wh, 0) == rows and shape(wh, 1) == cols",
         "1 <= use_state_dims and use_state_dims <= state_dim and cd >= 0 and cols == state_dim + cd + 1",
         # j_from_ode: dest = np.empty((rows - 1) * (cols - 1 - state_dim + use_state_dims) - use_state_dims)
         "len(dest) == (rows - 1) * (cd + use_state_dims) - use_state_dims",
     ],
-    modifies=["dest"],
+    modifies=["dest", "gi", "gc", "wh"],
     loops={
         "0": Loop(inv=[
+            tag("C10", "cells-hold-documented-summands",
+                "cells_ok(dest, ode, gi, gc, wh, index, i - 1, rows, state_dim, use_state_dims, cols, gamma)"),
+            tag("C10", "finished-steps-complete", "steps_ok(gi, gc, wh, index, i, state_dim, use_state_dims, cols)"),
             tag("C10 C13", "rows", "view_index(last_row) == i - 1 and start == cols - 2 and add_state == (i >= 2)"),
             tag("C10 C13", "cells-written", "index == (i - 1) * cd + (i - 2 if i >= 2 else 0) * use_state_dims"),
             tag("C10", "dest-prefix-written", "forall(k, 0, index, written(dest, k))"),
         ]),
         "0.0": Loop(inv=[
+            tag("C10", "weights", "weight == dt(ode, i, cols) and weight_01 == weight * gamma"),
+            tag("C10", "cells-hold-documented-summands",
+                "cells_ok(dest, ode, gi, gc, wh, index, i, rows, state_dim, use_state_dims, cols, gamma)"),
+            tag("C10", "finished-steps-complete", "steps_ok(gi, gc, wh, index, i, state_dim, use_state_dims, cols)"),
+            tag("C10", "controls-of-this-step-so-far", "row_ok(gi, gc, wh, index, i, inner + 1, cols - 1)"),
+            tag("C10", "columns-of-this-step-not-yet-stored", "forall(k, 0, index, implies(gi[k] == i, gc[k] > inner))"),
             tag("C10 C13", "ctrl-cursor", "state_dim - 1 <= inner and inner <= start and view_index(last_row) == i - 1"
                 " and view_index(next_row) == i and 1 <= i and i < rows"),
             tag("C10 C13", "cells-written", "index == (i - 1) * cd + (i - 2 if i >= 2 else 0) * use_state_dims + (start - inner)"),
             tag("C10", "dest-prefix-written", "forall(k, 0, index, written(dest, k))"),
         ]),
         "0.1": Loop(inv=[
+            tag("C10", "weights", "weight == dt(ode, i, cols)"),
+            tag("C10", "cells-hold-documented-summands",
+                "cells_ok(dest, ode, gi, gc, wh, index, i, rows, state_dim, use_state_dims, cols, gamma)"),
+            tag("C10", "finished-steps-complete", "steps_ok(gi, gc, wh, index, i, state_dim, use_state_dims, cols)"),
+            tag("C10", "controls-of-this-step", "row_ok(gi, gc, wh, index, i, state_dim, cols - 1)"),
+            tag("C10", "states-of-this-step-so-far", "row_ok(gi, gc, wh, index, i, inner, use_state_dims)"),
+            tag("C10", "columns-of-this-step-not-yet-stored",
+                "forall(k, 0, index, implies(gi[k] == i, gc[k] >= state_dim or gc[k] >= inner))"),
             tag("C10 C13", "state-cursor", "0 <= inner and inner <= use_state_dims and view_index(last_row) == i - 1"
                 " and view_index(next_row) == i and 2 <= i and i < rows"),
             tag("C10 C13", "cells-written", "index == i * cd + (i - 2) * use_state_dims + (use_state_dims - inner)"),
@@ -51,30 +94,49 @@ contract(
                                              "mul_le(use_state_dims, i - 2, rows - 3)"]},
     ensures=[
         tag("C10", "dest-exactly-filled", "forall(k, 0, len(dest), written(dest, k))"),
+        tag("C10", "every-cell-is-a-documented-summand",
+            "cells_ok(dest, ode, gi, gc, wh, len(dest), rows - 1, rows, state_dim, use_state_dims, cols, gamma)"),
+        tag("C10", "every-documented-summand-has-its-cell",
+            "steps_ok(gi, gc, wh, len(dest), rows, state_dim, use_state_dims, cols)"),
     ],
 )
 
 # j_from_ode: allocates the buffer the kernel fills; its size must be exactly what the kernel writes
 from pyvc.spec import OBJ  # noqa: E402
 
+spec("fsumv(a, n)", None, ret="real", ptypes=["arr1r", "int"])      # the exactly rounded sum of a[0..n)
 _fsum = contract("<opaque>:fsum", params={"a": A1(elem="real", uninit=True)}, returns=REAL,
                  requires=[tag("C10", "buffer-completely-written", "forall(k, 0, len(a), written(a, k))")],
+                 ensures=["result == fsumv(a, len(a))"],
                  assumptions=["math.fsum(dest) is the exactly rounded sum of the entries (external)"])
 
 contract(
     OD + ":j_from_ode",
     props="C10 C13",
     params={"ode": A2(elem="real"), "state_dim": INT, "use_state_dims": INT, "gamma": REAL},
-    ghosts={"rows": INT, "cols": INT},
+    ghosts={"rows": INT, "cols": INT, "gi": A1(), "gc": A1(), "wh": A2()},
+    modifies=["gi", "gc", "wh"],
+    ghost_results={"dest": A1(elem="real")},
     i64=False,
     returns=REAL,
     requires=["rows >= 1 and shape(ode, 0) == rows and shape(ode, 1) == cols and state_dim >= 1 and cols >= state_dim + 1",
               "use_state_dims <= state_dim",
+              "implies(rows >= 2, len(gi) == (rows - 1) * (cols - 1 - state_dim + (use_state_dims if use_state_dims > 0 else state_dim))"
+              " - (use_state_dims if use_state_dims > 0 else state_dim))",
+              "len(gc) == len(gi) and shape(wh, 0) == rows and shape(wh, 1) == cols",
               # what run_ode returns (monitored by the bounded harness): times strictly increasing from 0
               "implies(rows >= 2, ode[rows - 1, cols - 1] > 0)"],
     opaque={"fsum": _fsum},
-    calls={"__j_from_ode_compute": {"rows": "rows", "cols": "cols", "cd": "cols - 1 - state_dim"}},
-    ensures=[tag("C10", "failure-value-for-short-runs", "implies(rows <= 1, result == 1e200)")],
+    calls={"__j_from_ode_compute": {"rows": "rows", "cols": "cols", "cd": "cols - 1 - state_dim", "gi": "gi", "gc": "gc",
+                                    "wh": "wh"}},
+    ensures=[tag("C10", "failure-value-for-short-runs", "implies(rows <= 1, result == 1e200)"),
+             # J = (exactly rounded sum of the documented summands) / simulated time
+             tag("C10", "documented-figure-of-merit",
+                 "implies(rows >= 2, result == fsumv(dest, len(dest)) / ode[rows - 1, cols - 1] and len(dest) == len(gi)"
+                 " and cells_ok(dest, ode, gi, gc, wh, len(dest), rows - 1, rows, state_dim,"
+                 " (use_state_dims if old(use_state_dims) > 0 else state_dim), cols, gamma)"
+                 " and steps_ok(gi, gc, wh, len(dest), rows, state_dim,"
+                 " (use_state_dims if old(use_state_dims) > 0 else state_dim), cols))")],
 )
 
 
@@ -96,3 +158,31 @@ def _call_is_ok(inp):
 
 CONTRACTS[OD + ":_is_ok"].gen = _gen_is_ok
 CONTRACTS[OD + ":_is_ok"].call = _call_is_ok
+
+
+def _gen_jcompute(rng):
+    sd = rng.randint(1, 3)
+    cd = rng.randint(0, 2)
+    usd = rng.randint(1, sd)
+    rows = rng.randint(2, 5)
+    cols = sd + cd + 1
+    ode = np.array([[rng.choice([0.0, 1.0, -2.0, 0.5, 3.0, 1e150, -1e200]) if rng.random() < 0.3 else rng.uniform(-4, 4)
+                     for _ in range(cols)] for _ in range(rows)], float)
+    t = 0.0
+    for r in range(rows):
+        ode[r, -1] = t
+        t += rng.choice([0.25, 0.5, 1.0, 2.0])
+    n = (rows - 1) * (cd + usd) - usd
+    return {"ode": ode, "state_dim": sd, "use_state_dims": usd, "gamma": rng.choice([0.0, 0.1, 0.5, 1.0, 2.0]),
+            "dest": np.full(n, np.nan), "rows": rows, "cols": cols, "cd": cd,
+            "gi": np.zeros(n, np.int64), "gc": np.zeros(n, np.int64), "wh": np.zeros((rows, cols), np.int64)}
+
+
+def _call_jcompute(inp):
+    from moptipyapps.dynamic_control import ode as _o
+    fn = getattr(_o, "__j_from_ode_compute")
+    fn(inp["ode"], inp["state_dim"], inp["use_state_dims"], inp["gamma"], inp["dest"])
+
+
+CONTRACTS[OD + ":__j_from_ode_compute"].gen = _gen_jcompute
+CONTRACTS[OD + ":__j_from_ode_compute"].call = _call_jcompute
